@@ -8,6 +8,10 @@ import (
 	"fmt"
 	"strings"
 	"testing"
+	"time"
+
+	"github.com/basecamp/kamal-proxy/internal/verif/vsched"
+	"github.com/basecamp/kamal-proxy/internal/verif/vsync"
 
 	"golang.org/x/crypto/acme/autocert"
 )
@@ -139,6 +143,98 @@ func c16Acme(w *World) []Violation {
 	return vs
 }
 
+// ---- engine S part: the policy of a sub-path service holds at every instant while other commands run
+
+type c16cfg struct {
+	root string // option of the root-path service of a.example.com: tls | tlsnr
+	cmd  string // the overlapping command; none of them changes the policy of a.example.com
+}
+
+func c16Scenario(c c16cfg) *Scenario {
+	sc := &Scenario{Name: fmt.Sprintf("C16-S root=%s cmd=%q", c.root, c.cmd), Horizon: 60 * time.Second}
+	var plain, secure *ReqObs
+	var subTarget string
+	sc.Run = func(w *World) {
+		plain, secure = nil, nil
+		h := &HWorld{World: w, M: newModel(), allNames: map[string]bool{}}
+		h.apply(parseOp("deploy ra h=a.example.com p=/ o=" + c.root))
+		sub := parseOp("deploy sa h=a.example.com p=/api o=plain")
+		h.apply(sub)
+		h.apply(parseOp("deploy rb h=b.example.com p=/ o=plain"))
+		if ms := h.M.Services["sa"]; ms != nil && len(ms.Active) > 0 {
+			subTarget = ms.Active[0]
+		}
+		time.Sleep(100 * time.Millisecond)
+		ch := &HWorld{World: w, M: h.M.clone(), allNames: map[string]bool{}, opNo: 50}
+		var wg vsync.WaitGroup
+		w.S.SetWindow(true)
+		wg.Add(3)
+		// the clients come first in the default schedule: one deviation parks a request between routing and its
+		// policy check, a second one parks the command in the middle of its update
+		vsched.GoTagged("client", func() {
+			defer wg.Done()
+			plain = w.Do(ReqSpec{ID: "plain", Host: "a.example.com", Path: "/api/x?q=1"})
+		})
+		vsched.GoTagged("client", func() {
+			defer wg.Done()
+			secure = w.Do(ReqSpec{ID: "secure", Host: "a.example.com", Path: "/api/y", TLS: true})
+		})
+		vsched.GoTagged("cmd", func() {
+			defer wg.Done()
+			ch.apply(parseOp(c.cmd))
+		})
+		wg.Wait()
+		w.S.SetWindow(false)
+	}
+	sc.Check = func(w *World) []Violation {
+		var vs []Violation
+		for _, n := range w.Notes {
+			vs = append(vs, Violation{"C16", "setup", n})
+		}
+		if len(vs) > 0 || plain == nil || secure == nil || !plain.Done || !secure.Done {
+			return vs
+		}
+		redeploysSub := strings.HasPrefix(c.cmd, "deploy sa ")
+		forwardedBySub := func(r *ReqObs) bool {
+			if r.Status == 503 && strings.Contains(lastSites(r.Sites, 2), "claimTarget") {
+				// the policy let the request through; it was then refused by a target that the overlapping redeploy is
+				// draining (the open C02 finding), which is not a matter of TLS policy
+				return true
+			}
+			return r.Status == 200 && r.ServedBy() != "" && (r.ServedBy() == subTarget || redeploysSub)
+		}
+		if c.root == "tls" {
+			if plain.Status != 301 || plain.Header.Get("Location") != "https://a.example.com/api/x?q=1" {
+				vs = append(vs, Violation{"C16", "tls-policy-lapse plain-request-not-redirected", fmt.Sprintf("while %q ran, a plain-HTTP request to the sub-path service of a TLS+redirect host got %s (Location %q)", c.cmd, plain.Summary(), plain.Header.Get("Location"))})
+			}
+		} else if !forwardedBySub(plain) {
+			vs = append(vs, Violation{"C16", "tls-policy-lapse plain-request-not-forwarded", fmt.Sprintf("while %q ran, a plain-HTTP request to the sub-path service of a TLS host without redirect got %s", c.cmd, plain.Summary())})
+		}
+		if !forwardedBySub(secure) {
+			vs = append(vs, Violation{"C16", "tls-policy-lapse tls-request-refused", fmt.Sprintf("while %q ran, a TLS request to the sub-path service of a TLS host got %s", c.cmd, secure.Summary())})
+		}
+		return vs
+	}
+	return sc
+}
+
+func c16Configs() []c16cfg {
+	var cfgs []c16cfg
+	for _, root := range []string{"tls", "tlsnr"} {
+		for _, cmd := range []string{
+			"deploy rc h=c.example.com p=/ o=plain", // unrelated new service
+			"deploy rb h=b.example.com p=/ o=tls",   // unrelated redeploy
+			"remove rb",
+			"deploy sa h=a.example.com p=/api o=plain", // redeploy of the sub-path service itself
+			"deploy ra h=a.example.com p=/ o=" + root,  // redeploy of the root service with the same flags
+			"deploy sx h=a.example.com p=/other o=plain",
+		} {
+			cfgs = append(cfgs, c16cfg{root, cmd})
+		}
+	}
+	return cfgs
+}
+
 func checkC16(t *testing.T, job *Job, res *Result) {
 	tier := job.Tier
 	if job.Replay != nil {
@@ -153,6 +249,18 @@ func checkC16(t *testing.T, job *Job, res *Result) {
 	if job.Replay == nil || job.Replay.Engine == "E" {
 		runE(t, job, res, &ESpec{Prop: "C16", Cases: []ECase{{Name: "automatic TLS boundary", Class: "acme", Run: c16Acme}}, Batch: 1})
 	}
-	res.Engine = "H+E"
+	if job.Replay == nil || job.Replay.Engine == "S" {
+		var scs []*Scenario
+		for _, c := range c16Configs() {
+			scs = append(scs, c16Scenario(c))
+		}
+		b := Bounds{D: 2, S: 0}
+		if tier == "thorough" {
+			b = Bounds{D: 3, S: 0}
+		}
+		runS(t, job, res, "C16", scs, b, 0)
+	}
+	res.Engine = "H+E+S"
+	res.Rule += "; engine S: a sub-path service under a TLS root (with and without redirect) while a command that leaves the host's policy unchanged runs (unrelated deploy/redeploy/remove, redeploy of the sub-path or root service with the same flags, another sub-path service): a plain-HTTP and a TLS request at every schedule within the bounds must see the root's policy"
 	_ = strings.TrimSpace
 }
